@@ -127,7 +127,7 @@ CHECKS = {
              "returns in < 0.9 s even at the start of a retry wait; no ping in a 1.5 s quiet window after Stop() returned; <= 1 ping per tick "
              "after repeated Start. non-trivial = a round with a failure (exhaustive unit), >= 2 rounds or a Stop inside a retry wait (sequences)",
         assumptions=["the first call is Start (Stop before Start is outside the property's domain)", "timing bounds are one-sided with >= 10% slack on the library's 1 s constant"],
-        units=[enum("TestC19_RoundsExhaustive", 4, 4), rapid("TestC19_Sequences", 1, 1, 2, 8)],
+        units=[enum("TestC19_RoundsExhaustive", 4, 4), rapid("TestC19_Sequences", 1, 1, 2, 8), rapid("TestC19_ShutdownPaths", 1, 1, 2, 8)],
     ),
     "C01": dict(
         level="fault_enumeration",
